@@ -42,7 +42,7 @@ def valid_utf8(n):
 
 def run(ck, rng):
     exe = build_godriver()
-    forests = wide_forests(10)[::2]
+    forests = wide_forests(10)[::2] + deep_forests(depths=(64, 65, 66, 67, 130))
     for _ in range(700 if ck.tier == "quick" else 20000):
         forests.append(gen_forest(rng, max_roots=4, max_nodes=12 if rng.random() < 0.8 else 30, pool="hostile_fmt"))
     cases, meta = [], []
